@@ -6,6 +6,9 @@ CHECKS = {
  "C14": ("proof", "All three tables are machine-translated into Lean on every run together with spglib's Hall database; each of the 1 731 Wyckoff positions and 879 normalizers is one kernel-evaluated theorem (decide +kernel) and soundness lemmas lift the Boolean checks to statements over all parameter values in Q^3 and all metric tensors of the lattice system. Monitors: labels of one crystal per group and spglib's letters for table-built probe crystals on the real code.",
          STD_NOTE + "tools/gen_tables.py as a copier (round-trip checked by DumpTables.lean), its certificates are untrusted; spglib's Hall database is the reference the property names; spec definitions in MatidModel/Table.lean.",
          "Lean 4 proof over translated tables (decide +kernel + soundness lemmas)", "DESIGN.md §6 C14"),
+ "C15": ("proof", "Lean 4: the scan model isChiral on integer matrices, det multiplicativity and basis invariance (any invertible integer basis change, hence any rational one), and by kernel evaluation over the translated reference operations: no improper operation exactly for the 65 Sohncke types. Correspondence: synthetic spglib datasets for all 530 Hall numbers x random unimodular bases, the operations the code actually scans are recorded and fed to the model; end-to-end crystals with supercell/shear/rotation/permutation presentations.",
+         STD_NOTE + "reference operations from spglib's Hall database; which operations the code scans is observed (np.linalg.det recorder), not proved; spglib's detection of the group is monitored end to end.",
+         "Lean 4 proof + recorded-scan correspondence", "DESIGN.md §6 C15"),
  "C19": ("proof", "Lean 4 theorems over the preset definitions translated from get_radii's AST and ASE's tables (decide +kernel over Z=1..103 plus general lemmas for all tables); exhaustive correspondence model vs real function; consumer equality sampled.",
          STD_NOTE + "tools/gen_radii.py, IEEE comparison model R.ne/R.eq; consumer structure (callers use only get_radii's result) is sampled, not proved.",
          "Lean 4 proof over AST-translated model + exhaustive correspondence", "DESIGN.md §6 C19"),
